@@ -765,6 +765,31 @@ fn main() {
     }
 }
 
+fn make_summary(prop: &str, tier_s: &str, seed: u64, child: u64, nchild: u64, from: u64, count: u64, last: u64, wall: f64, cov: &Cov) -> serde_json::Value {
+    json!({
+        "property": prop, "tier": tier_s, "seed": seed, "child": child, "nchild": nchild,
+        "from": from, "count": count, "last_index": last, "wall_s": wall,
+        "workloads": cov.workloads, "executions": cov.executions, "par_executions": cov.par_executions,
+        "nontrivial_runs": cov.nontrivial,
+        "distinct": cov.distinct.len(), "distinct_nontrivial": cov.distinct_nontrivial.len(),
+        "completion_orders": cov.completion_orders.iter().collect::<Vec<_>>(),
+        "out_of_order_runs": cov.out_of_order_runs, "blocking_runs": cov.blocking_runs,
+        "steps": cov.steps, "events": cov.events,
+        "states": cov.states.iter().collect::<Vec<_>>(),
+        "transitions": cov.transitions.iter().map(|(a, b)| mix(*a, *b)).collect::<Vec<_>>(),
+        "chan_max_len": cov.chan_max_len, "blocking_sends": cov.blocking_sends, "blocking_recvs": cov.blocking_recvs,
+        "hashq_full_runs": cov.hashq_full_runs, "max_hash_lag": cov.max_hash_lag,
+        "policies": cov.policies, "ooo_by_policy": cov.ooo_by_policy, "faults_fired": cov.faults_fired, "fault_free_runs": cov.fault_free_runs,
+        "order_divergent": cov.order_divergent, "ok_results": cov.ok_results, "err_results": cov.err_results,
+        "max_tasks": cov.max_tasks, "workers_hist": cov.workers_hist, "delivery_hist": cov.delivery_hist,
+        "bits_hist": cov.bits_hist, "skipped_single_err": cov.skipped_single_err,
+        "budget_max_ratio": cov.budget_max_ratio,
+        "slowest_ms_index": cov.slowest,
+        "skipped_oversize_output": cov.skipped_oversize_output,
+        "samples": cov.samples,
+    })
+}
+
 fn cmd_run(args: &[String]) {
     let prop = arg(args, "--prop").unwrap_or("C05").to_owned();
     let tier_s = arg(args, "--tier").unwrap_or("quick").to_owned();
@@ -807,30 +832,16 @@ fn cmd_run(args: &[String]) {
         cov.slowest.sort_unstable_by(|a, b| b.cmp(a));
         cov.slowest.truncate(8);
         last = i;
+        // coverage so far is flushed now and then, so that it survives an exit on a violation
+        if cov.workloads % 64 == 0 {
+            if let Some(p) = &out {
+                let part = make_summary(&prop, &tier_s, seed, child, nchild, from, count, last, t0.elapsed().as_secs_f64(), &cov);
+                let _ = std::fs::write(p, serde_json::to_string(&part).unwrap());
+            }
+        }
     }
     let wall = t0.elapsed().as_secs_f64();
-    let summary = json!({
-        "property": prop, "tier": tier_s, "seed": seed, "child": child, "nchild": nchild,
-        "from": from, "count": count, "last_index": last, "wall_s": wall,
-        "workloads": cov.workloads, "executions": cov.executions, "par_executions": cov.par_executions,
-        "nontrivial_runs": cov.nontrivial,
-        "distinct": cov.distinct.len(), "distinct_nontrivial": cov.distinct_nontrivial.len(),
-        "completion_orders": cov.completion_orders.iter().collect::<Vec<_>>(),
-        "out_of_order_runs": cov.out_of_order_runs, "blocking_runs": cov.blocking_runs,
-        "steps": cov.steps, "events": cov.events,
-        "states": cov.states.iter().collect::<Vec<_>>(),
-        "transitions": cov.transitions.iter().map(|(a, b)| mix(*a, *b)).collect::<Vec<_>>(),
-        "chan_max_len": cov.chan_max_len, "blocking_sends": cov.blocking_sends, "blocking_recvs": cov.blocking_recvs,
-        "hashq_full_runs": cov.hashq_full_runs, "max_hash_lag": cov.max_hash_lag,
-        "policies": cov.policies, "ooo_by_policy": cov.ooo_by_policy, "faults_fired": cov.faults_fired, "fault_free_runs": cov.fault_free_runs,
-        "order_divergent": cov.order_divergent, "ok_results": cov.ok_results, "err_results": cov.err_results,
-        "max_tasks": cov.max_tasks, "workers_hist": cov.workers_hist, "delivery_hist": cov.delivery_hist,
-        "bits_hist": cov.bits_hist, "skipped_single_err": cov.skipped_single_err,
-        "budget_max_ratio": cov.budget_max_ratio,
-        "slowest_ms_index": cov.slowest,
-        "skipped_oversize_output": cov.skipped_oversize_output,
-        "samples": cov.samples,
-    });
+    let summary = make_summary(&prop, &tier_s, seed, child, nchild, from, count, last, wall, &cov);
     if let Some(p) = out {
         std::fs::write(&p, serde_json::to_string(&summary).unwrap()).expect("write summary");
     } else {
